@@ -80,6 +80,7 @@ type ContractSet struct {
 	Globals map[string][]*GlobalSpec // by package path
 	Lemmas  []*Lemma
 	Errors  []string
+	specLike bool
 	Pure    map[string]bool // trusted side-effect-free dependency functions (result unknown)
 }
 
@@ -89,7 +90,7 @@ func NewContractSet() *ContractSet {
 
 var keywords = map[string]bool{"func": true, "global": true, "requires": true, "ensures": true, "panics_iff": true,
 	"may_panic": true, "modifies": true, "loop": true, "props": true, "trusted": true, "inline": true, "let": true,
-	"lemma": true, "pure": true, "var": true, "hyp": true, "concl": true, "assert": true, "end": true}
+	"lemma": true, "pure": true, "package": true, "var": true, "hyp": true, "concl": true, "assert": true, "end": true}
 
 var funcHdr = regexp.MustCompile(`^func\s+(\([^)]*\)\.)?([A-Za-z0-9_$\[\],./\-]+)\s*\(([^)]*)\)\s*(.*)$`)
 
@@ -139,7 +140,7 @@ func (cs *ContractSet) ParseContractText(file, pkg, text string, trusted bool) {
 		t := strings.TrimSpace(l)
 		if strings.HasPrefix(t, "//@") {
 			t = strings.TrimPrefix(t, "//@")
-		} else if trusted {
+		} else if trusted || !strings.HasSuffix(file, ".go") {
 			// spec files: every non-comment line counts
 			if strings.HasPrefix(t, "#") || strings.HasPrefix(t, "//") {
 				continue
@@ -213,6 +214,9 @@ func (cs *ContractSet) ParseContractText(file, pkg, text string, trusted bool) {
 			src := strings.TrimSpace(rest[i+1:])
 			g.Inv = Clause{E: parse(rl.n, src), Src: src}
 			cs.Globals[pkg] = append(cs.Globals[pkg], g)
+		case "package":
+			cur, curLemma = nil, nil
+			pkg = strings.TrimSpace(rest)
 		case "pure":
 			cur, curLemma = nil, nil
 			cs.Pure[strings.TrimSpace(rest)] = true
@@ -360,19 +364,31 @@ func splitTop(s string) []string {
 }
 
 func (cs *ContractSet) LoadSpecDir(dir string) error {
+	return cs.LoadDir(dir, ".spec", true)
+}
+
+// LoadDir parses every file with the suffix; trusted=false marks the contracts as to be
+// verified (lemma files, checked dependency contracts, canaries).
+func (cs *ContractSet) LoadDir(dir, suffix string, trusted bool) error {
 	ents, err := os.ReadDir(dir)
 	if err != nil {
+		if os.IsNotExist(err) {
+			return nil
+		}
 		return err
 	}
 	for _, e := range ents {
-		if !strings.HasSuffix(e.Name(), ".spec") {
+		if !strings.HasSuffix(e.Name(), suffix) {
 			continue
 		}
 		b, err := os.ReadFile(dir + "/" + e.Name())
 		if err != nil {
 			return err
 		}
-		cs.ParseContractText(dir+"/"+e.Name(), "", string(b), true)
+		cs.ParseContractText(dir+"/"+e.Name(), "", string(b), trusted)
+		if !trusted {
+			cs.specLike = true
+		}
 	}
 	return nil
 }
